@@ -56,4 +56,71 @@ CHECKS = {
         "required_buckets_thorough": ["whole_bmp_table_compared"],
         "assumptions": ["with ignore_space the candidate comparison is made only on dictionaries meeting C12's precondition"],
     },
+    "C04": {
+        "stages": [
+            st("main", "rel", [250, 6000], [25, 400]),
+            st("dbgassert", "relda", [60, 1000], [20, 200], shards=4),
+            st("tsan", "tsan", [40, 800], [30, 300], shards=4),
+            st("miri", "miri", [0, 1], [0, 1500], thorough_only=True, shards=1, watchdog_factor=2,
+               env={"MIRIFLAGS_EXTRA": "-Zmiri-many-seeds=0..8"}),
+        ],
+        "rule": "case = generated dictionary + <= 6 distinct sentences (empty, one char, tripled, spaces only ...); (1) a random history of "
+                "reset_sentence/tokenize (0-3 times)/init_connid_counter/update_connid_counts of length <= 40 on ONE worker, every result "
+                "read after a tokenize is compared with a fresh worker's result for the same sentence; (2) 2-16 threads, each with its own "
+                "worker of ONE shared Tokenizer, run random sentence lists concurrently with seeded yield points, each result compared with "
+                "the sequential one; client-side tickets record overlapping calls. TSan (and Miri, thorough) watch the thread workload. "
+                "Non-trivial = a history, or a thread workload in which calls of different threads overlapped; distinct by content hash.",
+        "required_buckets": ["tokenize_repeated", "shorter_after_longer", "empty_sentence_in_history", "non_empty_after_empty",
+                             "update_counts_in_history", "threads_overlapped"],
+        "assumptions": ["interleavings are sampled (OS scheduler + seeded yields), not enumerated",
+                        "Tokenizer: Send + Sync and Dictionary: Send + Sync are asserted at compile time by the harness"],
+    },
+    "C06": {
+        "stages": [
+            st("main", "rel", [800, 20000], [25, 400]),
+            st("dbgassert", "relda", [200, 3000], [20, 200], shards=8),
+        ],
+        "rule": "case = generated dictionary (matrix/raw/dual) + user lexicon + a history of 1-5 operations from {map with a random pair of "
+                "permutations, load user lexicon, write/read} + 16 sentences; oracles: cost'(pi_R r, pi_L l) = cost(r,l) for every id pair "
+                "incl. row/column 0 (real before vs real after), tokens before vs after (exact when the reference optimum is unique, by "
+                "cost otherwise), ids translated by the composed permutation, mapped run explained by the mapped description; six kinds of "
+                "malformed iterators must yield Err. Distinct = hash of (dictionary, operation history, sentence).",
+        "required_buckets": ["connector_matrix", "connector_raw", "connector_dual", "mapped_twice_or_more", "user_lexicon_after_two_mappings",
+                             "user_lexicon_before_mapping", "with_write_read", "user_token_after_mapping",
+                             "malformed_mapping_rejected_contains_0", "malformed_mapping_rejected_duplicate", "malformed_mapping_rejected_too_short",
+                             "malformed_mapping_rejected_too_long", "malformed_mapping_rejected_out_of_range"],
+        "assumptions": ["mapping convention as pinned by the existing test_parse_basic: the i-th item is the old id that receives new id i"],
+    },
+    "C08": {
+        "stages": [
+            st("main", "rel", [600, 15000], [25, 400]),
+            st("dbgassert", "relda", [150, 2500], [20, 200], shards=8),
+            st("asan", "asan", [0, 600], [0, 300], thorough_only=True, shards=8),
+        ],
+        "rule": "case = generated dictionary (optionally id-mapped) + two user lexicons + a load/replace/clear history of length 1-6 + 14 "
+                "sentences; oracles: behaviour after the history == the final lexicon loaded alone (tokens exactly, candidate multisets), "
+                "candidate multisets modulo lexicon type and optimal cost == system lexicon extended by the same rows, token provenance "
+                "(user tokens are user rows), nine kinds of invalid user CSVs must yield Err on mapped and unmapped dictionaries. "
+                "Distinct = hash of (dictionary, history, sentence).",
+        "required_buckets": ["history_ends_with_clear", "history_replaces_lexicon", "history_ends_with_load", "user_token_on_best_path",
+                             "system_token_with_user_lexicon_loaded", "invalid_rows_on_mapped_dictionary",
+                             "invalid_user_lexicon_rejected_left_id_out_of_range", "invalid_user_lexicon_rejected_right_id_out_of_range",
+                             "invalid_user_lexicon_rejected_too_few_columns"],
+        "assumptions": ["byte identity of images after clear is not required (the property speaks of behaviour)"],
+    },
+    "C12": {
+        "stages": [
+            st("main", "rel", [1200, 30000], [25, 400]),
+            st("dbgassert", "relda", [250, 4000], [20, 200], shards=8),
+        ],
+        "rule": "dictionaries meeting the stated precondition (U+0020/U+3000 in SPACE alone, nothing else in SPACE, no surface with a space) "
+                "with ignore_space on; each sentence is compared with up to 8 re-spaced variants (every space run rewritten to another "
+                "non-zero length/composition, leading/trailing runs added or removed): token sequences exactly when the reference optimum "
+                "is unique, by optimal cost otherwise; no token contains a space; spaces-only sentences yield nothing; agreement with the "
+                "reference skip rule (candidates, membership, optimum); ignore_space(true) without SPACE must be Err. "
+                "Non-trivial = sentence with a space run and >= 1 token compared with >= 1 variant; distinct = hash of (dictionary, sentence).",
+        "required_buckets": ["inner_space_run", "leading_space_run", "trailing_space_run", "spaces_only_sentence",
+                             "grouped_unknown_word_next_to_space", "ignore_space_rejected_without_SPACE", "connector_matrix", "connector_raw", "connector_dual"],
+        "assumptions": [],
+    },
 }
